@@ -83,6 +83,9 @@ pub struct Expect {
     pub ver: usize,
     pub start_block: u32,
     pub user_sig: String,
+    /// the trigger evaluation found no contact with the node about the penalty (and it is not in the
+    /// 100-block window): the appointment must not end up reported as responded
+    pub no_node_contact: bool,
 }
 
 #[derive(Clone, Debug, Default)]
@@ -203,7 +206,7 @@ impl Model {
 
     /// Outcome set of a triggered, watched appointment (C01). `w` = events of this window,
     /// `epoch` = events since the carrier's memo was last cleared.
-    fn trigger_outcomes(&mut self, world: &World, chain: &ChainState, key: Key, a: &MAppt, w: &[Ev], epoch: &[Ev], in_connect: bool, out: &mut Vec<Viol>) -> (BTreeSet<Out>, Option<u32>) {
+    fn trigger_outcomes(&mut self, world: &World, chain: &ChainState, key: Key, a: &MAppt, w: &[Ev], epoch: &[Ev], in_connect: bool, out: &mut Vec<Viol>) -> (BTreeSet<Out>, Option<u32>, bool) {
         let v = &world.versions[a.ver];
         self.c.obligations += 1;
         *self.c.blob_kinds.entry(format!("{:?}", v.kind)).or_insert(0) += 1;
@@ -212,7 +215,7 @@ impl Model {
             None => {
                 set.insert(Out::Gone);
                 self.c.discharged_dropped_invalid += 1;
-                return (set, None);
+                return (set, None, false);
             }
             Some(p) => p,
         };
@@ -222,19 +225,21 @@ impl Model {
         if let Some(hc) = self.in_window(&self.idx100, chain, &ptxid, in_connect) {
             set.insert(Out::Responded);
             self.c.discharged_responded += 1;
-            return (set, Some(hc));
+            return (set, Some(hc), false);
         }
         if w.iter().any(|e| matches!(e, Ev::GetRaw { txid, found: Some(true), .. } if *txid == ptxid)) {
             set.insert(Out::Responded);
             self.c.discharged_responded += 1;
-            return (set, None);
+            return (set, None, false);
         }
         let verdict = epoch.iter().find_map(|e| match e {
             Ev::Send { txid, verdict } if *txid == ptxid && *verdict != Verdict::Transport => Some(verdict.clone()),
             _ => None,
         });
+        let mut no_contact = false;
         match verdict {
             None => {
+                no_contact = true;
                 out.push(viol(
                     &["C01"],
                     "C01:penalty-not-submitted",
@@ -265,7 +270,7 @@ impl Model {
                 }
             }
         }
-        (set, None)
+        (set, None, no_contact)
     }
 
     /// Records node contacts about penalties of responded appointments (for the re-submission
@@ -351,6 +356,9 @@ impl Model {
                 out.push(viol(&props, format!("{}:state:{kind}", props[0]), format!("{ctx}: appointment (user {}, channel {}) is {observed:?}, expected one of {allowed:?} ({why})", key.0, key.1)));
                 continue;
             }
+            if observed == Out::Responded && e.as_ref().map_or(false, |e| e.no_node_contact) {
+                out.push(viol(&["C02"], "C02:responded-without-node-contact", format!("{ctx}: appointment (user {}, channel {}) is reported as dispute_responded although the node was neither given its penalty nor found to have it", key.0, key.1)));
+            }
             // adopt
             match observed {
                 Out::Gone => {
@@ -400,7 +408,12 @@ impl Model {
                     if row.start_block != start_block {
                         wrong.push("start_block");
                     }
-                    if !wrong.is_empty() {
+                    if !wrong.is_empty() && e.is_none() {
+                        // a record this step had no business with was altered
+                        let mut props = default_props.to_vec();
+                        props.push("C08");
+                        out.push(viol(&props, format!("{}:foreign-record-altered:{}", default_props[0], wrong.join("+")), format!("{ctx}: the stored appointment of (user {}, channel {}), which this step does not concern, changed in {wrong:?}", key.0, key.1)));
+                    } else if !wrong.is_empty() {
                         out.push(viol(&["C08"], format!("C08:stored-record-differs:{}", wrong.join("+")), format!("{ctx}: stored appointment (user {}, channel {}) differs from the version last accepted in {wrong:?} (stored start_block {}, expected {})", key.0, key.1, row.start_block, start_block)));
                     }
                     let prev_state = cur.map(|a| a.state.clone());
@@ -510,7 +523,7 @@ impl Model {
                 let a = self.appts.remove(&k).unwrap();
                 exp.insert(
                     k,
-                    Expect { allowed: BTreeSet::from([Out::Gone]), on_gone: OnGone::Forfeit, props: vec!["C09"], why: format!("owner purged at height {h}"), conf_if_responded: None, ver: a.ver, start_block: a.start_block, user_sig: a.user_sig },
+                    Expect { allowed: BTreeSet::from([Out::Gone]), on_gone: OnGone::Forfeit, props: vec!["C09"], why: format!("owner purged at height {h}"), conf_if_responded: None, ver: a.ver, start_block: a.start_block, user_sig: a.user_sig, no_node_contact: false },
                 );
             }
         }
@@ -546,7 +559,7 @@ impl Model {
             let a = self.appts[&k].clone();
             let v = &world.versions[a.ver];
             let dtxid = world.chans[k.1].dtxid;
-            let base = Expect { allowed: BTreeSet::new(), on_gone: OnGone::Forfeit, props: vec![], why: String::new(), conf_if_responded: None, ver: a.ver, start_block: a.start_block, user_sig: a.user_sig.clone() };
+            let base = Expect { allowed: BTreeSet::new(), on_gone: OnGone::Forfeit, props: vec![], why: String::new(), conf_if_responded: None, ver: a.ver, start_block: a.start_block, user_sig: a.user_sig.clone(), no_node_contact: false };
             match a.state.clone() {
                 MState::Watched => {
                     if txids.contains(&dtxid) {
@@ -554,10 +567,10 @@ impl Model {
                         if let Some(p) = &v.penalty {
                             just_p.insert(p.compute_txid());
                         }
-                        let (allowed, conf) = self.trigger_outcomes(world, chain, k, &a, w, epoch, true, out);
+                        let (allowed, conf, no_node_contact) = self.trigger_outcomes(world, chain, k, &a, w, epoch, true, out);
                         // a penalty confirmed by this very block is recorded as such by the responder
                         let conf = conf.or_else(|| v.penalty.as_ref().and_then(|p| txids.contains(&p.compute_txid()).then_some(h)));
-                        exp.insert(k, Expect { allowed, props: vec!["C01"], why: format!("dispute confirmed at height {h}; blob kind {:?}", v.kind), conf_if_responded: conf, ..base });
+                        exp.insert(k, Expect { allowed, props: vec!["C01"], why: format!("dispute confirmed at height {h}; blob kind {:?}", v.kind), conf_if_responded: conf, no_node_contact, ..base });
                     }
                 }
                 MState::Responded { conf, last_send: _, reorged } => {
@@ -661,7 +674,7 @@ impl Model {
         }
     }
 
-    pub fn trigger_outcomes_pub(&mut self, world: &World, chain: &ChainState, key: Key, a: &MAppt, w: &[Ev], epoch: &[Ev], out: &mut Vec<Viol>) -> (BTreeSet<Out>, Option<u32>) {
+    pub fn trigger_outcomes_pub(&mut self, world: &World, chain: &ChainState, key: Key, a: &MAppt, w: &[Ev], epoch: &[Ev], out: &mut Vec<Viol>) -> (BTreeSet<Out>, Option<u32>, bool) {
         self.trigger_outcomes(world, chain, key, a, w, epoch, false, out)
     }
 
